@@ -139,7 +139,7 @@ def sessions_for(tier):
         return q
     t = q + [
         ("tric", "angle3", D3(2, 2, 1), "P", True),
-        ("tric", "angle2", [[1, -1, 1], [0, 2, 0], [1, 0, -1]], "P", True),
+        ("tric", "angle2", [[1, -1, 1], [0, 2, 0], [-1, 0, 1]], "P", True),
         ("tetab", "angle2", [[1, 1, 0], [-1, 1, 0], [0, 0, 2]], "P", False),
         ("cscl", "angle2", D3(2, 2, 2), "P", False),
         ("cscl", "pair", [[2, 1, 0], [0, 1, 1], [0, 0, 2]], "P", False),
@@ -282,6 +282,9 @@ def gen_sessions(ctx, only=None):
     specs = sessions_for(ctx.tier) if only is None else [only]
     sess = [dict(entry=e, model=m, S=S, ptrans=PRIM[p][1], prim=PRIM[p][0], pname=p, nonsym=ns, box=3)
             for e, m, S, p, ns in specs]
+    for s in sess:      # C01 quantifies over matrices the constructor accepts: right-handed, non-singular
+        if c01_ref.det3(s["S"]) <= 0:
+            raise tlcmod.MachineryError("session with det S <= 0 is outside C01: %s" % s["S"])
     cells, crystals = c01_ref.reference(sess, ctx=ctx)
     for s in sess:
         s["chk"] = False
